@@ -119,9 +119,14 @@
 //! 
 
 #![warn(bare_trait_objects)]
+#![allow(unexpected_cfgs)]
 
+#[cfg(not(logicalshift_desync_verif))]
 #[macro_use]
 extern crate lazy_static;
+#[cfg(logicalshift_desync_verif)]
+#[macro_use]
+extern crate desync_verif_rt;
 extern crate futures;
 
 #[cfg(not(target_arch = "wasm32"))]
